@@ -478,37 +478,12 @@ Lemma abortable_cause_sweep : wsweep abortable_cause_b = true.
 Proof. vm_compute. reflexivity. Qed.
 
 (* ---------- fatal errors ------------------------------------------------------------------------ *)
-Definition fatal_absorbing_b (s : tstate) (c : call) (f : fault) : bool :=
-  tst_eqb (st s) FATAL ==>
-    (tstate_eqb (api_st s c f) s && is_nil (api_req s c f)
-     && (is_error (api_res s c f) || match c with CtxExc => true | _ => false end)).
-Definition fsweep (P : tstate -> call -> fault -> bool) : bool :=
-  forallb (fun s => if tst_eqb (st s) FATAL
-                    then forallb (fun c => forallb (fun f => P s c f) all_faults) all_calls
-                    else true) all_states.
-Lemma fatal_absorbing_fsweep : fsweep fatal_absorbing_b = true.
-Proof. vm_compute. reflexivity. Qed.
-Lemma fatal_absorbing_all s c f : fatal_absorbing_b s c f = true.
-Proof.
-  destruct (tst_eqb (st s) FATAL) eqn:F.
-  - pose proof fatal_absorbing_fsweep as H. unfold fsweep in H.
-    rewrite forallb_forall in H. specialize (H s (in_all_states s)). rewrite F in H.
-    rewrite forallb_forall in H. specialize (H c (in_all_calls c)).
-    rewrite forallb_forall in H. exact (H f (in_all_faults f)).
-  - unfold fatal_absorbing_b. rewrite F. reflexivity.
-Qed.
-
 Lemma fatal_absorbing_step s c f :
   st s = FATAL ->
   api_st s c f = s /\ api_req s c f = [] /\ (is_error (api_res s c f) = true \/ c = CtxExc).
 Proof.
-  intros F. pose proof (fatal_absorbing_all s c f) as P.
-  unfold fatal_absorbing_b in P. rewrite F in P. simpl in P.
-  apply andb_prop in P. destruct P as [P R]. apply andb_prop in P. destruct P as [P Q].
-  apply eqb_of_true in P. split; [exact P|]. split.
-  - destruct (api_req s c f); [reflexivity|discriminate].
-  - apply orb_prop in R. destruct R as [R|R]; [left; exact R|right].
-    destruct c; try discriminate; reflexivity.
+  destruct s as [t a b g k w g0 g1 n0 n1]. simpl. intros F. subst t.
+  destruct c as [ | [|] | | | | | | [|] ]; vm_compute; repeat split; auto.
 Qed.
 
 Lemma fatal_absorbing_run : forall cs s,
